@@ -690,6 +690,13 @@ func lemmaFrameAboveCapRoundTrips() bool { return specF7RoundTrips() }
 
 //@ func (*connection).writeFarewellSeparate
 //@ operation
+//@ nosafety nil-deref nil-iface
+//@ noframe
+//@ modifies nothing
+//@ requires c != nil && e != nil
+//@ ensures [bounded] zzCalls("hsms.(transport).Write") == 1 ==> zzCalls("hsms.(transport).SetWriteDeadline") == 2 && zzCalls("time.(Time).Add") == 1 &&
+//@                   zzArg[time.Duration]("time.(Time).Add", 0) == farewellWriteTimeout && zzSeq("time.(Time).Add") < zzSeq("hsms.(transport).Write")
+//@ ensures [once]    zzCalls("hsms.(transport).Write") <= 1
 
 //@ func (*connection).react
 //@ nosafety nil-deref nil-iface
